@@ -14,7 +14,7 @@ What a run does (DESIGN.md §3/§4):
      failing-input search; VIOLATION line with a replay file; `no-failing-input-found` when the search
      finds no concrete input.
 """
-import argparse, fcntl, hashlib, json, os, re, shutil, subprocess, sys, time
+import argparse, fcntl, hashlib, json, os, re, resource, shutil, subprocess, sys, time
 
 VERIF = os.path.dirname(os.path.dirname(os.path.abspath(__file__)))
 REPO = os.environ.get("VERIF_REPO", "/repo")
@@ -31,10 +31,23 @@ sys.path.insert(0, os.path.join(VERIF, "tools"))
 import registry  # noqa: E402  (per-property configuration)
 
 
-def sh(cmd, cwd=None, env=None, timeout=None, stdin=None, stdout=subprocess.PIPE):
+def _limits():
+    # a runaway `decide` must not eat the machine: cap the address space of every child (Lean needs a
+    # large reservation for its threads; 48 GiB is enough and still below physical memory)
+    resource.setrlimit(resource.RLIMIT_AS, (48 << 30, 48 << 30))
+
+
+def sh(cmd, cwd=None, env=None, timeout=None, stdin=None, stdout=subprocess.PIPE, limit=False):
     t0 = time.time()
-    p = subprocess.run(cmd, cwd=cwd, env=env, stdin=stdin, stdout=stdout, stderr=subprocess.STDOUT,
-                       timeout=timeout, text=True if stdout == subprocess.PIPE else None)
+    try:
+        p = subprocess.run(cmd, cwd=cwd, env=env, stdin=stdin, stdout=stdout, stderr=subprocess.STDOUT,
+                           timeout=timeout, text=True if stdout == subprocess.PIPE else None,
+                           preexec_fn=_limits if limit else None)
+    except subprocess.TimeoutExpired as e:
+        out = e.stdout or ""
+        if isinstance(out, bytes):
+            out = out.decode("utf-8", "replace")
+        return 124, out + "\n[timeout after %ss]" % timeout, time.time() - t0
     return p.returncode, (p.stdout if stdout == subprocess.PIPE else ""), time.time() - t0
 
 
@@ -125,7 +138,7 @@ def prop_theorems(module):
 
 
 def lake_build(ctx, targets):
-    rc, out, dt = sh(["lake", "build"] + targets, cwd=LEAN, timeout=3600)
+    rc, out, dt = sh(["lake", "build"] + targets, cwd=LEAN, timeout=1500, limit=True)
     return rc, out, dt
 
 
@@ -168,7 +181,7 @@ def proofs(ctx, cfg):
             f.write("import %s\n" % m)
         for t in thms:
             f.write("#print axioms %s\n" % t)
-    rc, out, _ = sh(["lake", "env", "lean", scratch], cwd=LEAN, timeout=1800)
+    rc, out, _ = sh(["lake", "env", "lean", scratch], cwd=LEAN, timeout=900, limit=True)
     axioms = {}
     for m in re.finditer(r"'([^']+)' depends on axioms: \[([^\]]*)\]", out):
         axioms[m.group(1)] = [a.strip() for a in m.group(2).replace("\n", " ").split(",") if a.strip()]
